@@ -172,11 +172,13 @@ def _edit_in_place(opcond, oc):
     opcond.t_tot = oc["t_tot"]
 
 
-def _mk(case, nrep, path=None, prog=0):
+def _mk(case, nrep, path=None, prog=0, t_tot=None):
     from ethz_snow.snowing import Snowing
     from ethz_snow.operatingConditions import OperatingConditions
 
     oc, s0 = _programme(case, prog), PROGRAMS[case["prog"]][1]
+    if t_tot is not None:
+        oc["t_tot"] = t_tot
     S = Snowing(k={"int": 0, "ext": 0, "s0": s0, "s_sigma_rel": 0}, opcond=OperatingConditions(**oc),
                 Nrep=nrep, configPath=path or _config(case["dim"], case.get("cfg")))
     # constants adjusted directly on the object after construction belong to the object
@@ -226,11 +228,15 @@ def _worker_tasks():
     os.remove(path)
     groups = []
     for evs in per.values():
-        cur = None
+        cur, nseed = None, 0
         for e in evs:
-            if e == ["seed", 2024] or cur is None:      # every task begins by seeding the kinetic stream
+            # a task draws from two streams (kinetic, then its own): a new task begins at every other re-seeding
+            # (the repetition with seed 2024 seeds 2024 twice - the value cannot be used as the boundary)
+            if cur is None or (e[0] == "seed" and nseed % 2 == 0):
                 cur = []
                 groups.append(cur)
+            if e[0] == "seed":
+                nseed += 1
             cur.append(e)
     return sorted(groups, key=json.dumps)
 
@@ -254,10 +260,20 @@ def run_impl(case):
         nmax = max([nrep] + [op[1] for op in case["ops"] if op[0] == "setNrep"])
         # reference: the single run with seed i on a fresh object each
         ref, ref_evs = [], []
+        rows_checked = case.get("check_rows")      # a large study: only these rows are compared with single runs
         for i in range(nmax):
+            if rows_checked is not None and i not in rows_checked:
+                ref.append(None)
+                continue
             mark = len(EVENTS)
             ref.append(_single(_mk(case, 1), case, i))
-            ref_evs.append(EVENTS[mark:])
+            ref_evs.append([i, EVENTS[mark:]])
+        t_cut = None
+        if case.get("partial"):
+            # a process time BETWEEN the completion times of the repetitions: some complete, the others cannot
+            done = sorted(core.b2f(r[-1]) * 60 for r in ref)
+            k = case["partial"]["complete"]
+            t_cut = (done[k - 1] + done[k]) / 2
         # ... and for every programme the attached operating conditions are edited to (fresh objects, fresh opcond)
         refs = {"0": ref}
         for op in case["ops"]:
@@ -272,7 +288,7 @@ def run_impl(case):
         w0 = np.random.get_state()
         tamper = case.get("tamper") or {}
         scratch = _private_config(case) if tamper.get("file") else None
-        S = _mk(case, nrep, scratch)
+        S = _mk(case, nrep, scratch, t_tot=t_cut)
         if scratch:
             # the scratch file is rewritten for "the next sweep point": the object keeps ITS constants
             with open(scratch, "a") as fh:
@@ -306,10 +322,14 @@ def run_impl(case):
                 except Exception as e:
                     out.append({"raise": core.exc_class(e)})
         obs = {"raise": None, "out": out, "ref": ref, "refs": refs, "used_prog": cur, "ref_evs": ref_evs,
-               "world": _world(w0, nmax), "pool_sizes": pool_sizes}
+               "world": _world(w0, min(nmax, 64)), "pool_sizes": pool_sizes}
+        if t_cut is not None:
+            obs["partial"] = {"t_tot": t_cut, "complete": [i for i, r in enumerate(ref) if core.b2f(r[-1]) * 60 < t_cut]}
+            return obs
         # the single run on the USED object, global generator perturbed: must equal the reference
         np.random.seed(4242)
-        obs["used"] = [_single(S, case, i) for i in range(min(nmax, 2 if case["dim"] == "homogeneous" else 1))]
+        obs["used"] = [_single(S, case, i) for i in range(min(nmax, 2 if case["dim"] == "homogeneous" else 1))
+                       if ref[i] is not None]
         if scratch and os.path.exists(scratch):
             os.remove(scratch)
         return obs
@@ -356,7 +376,7 @@ def _interp(rows, ref):
     for seed, xi, fr in rows:
         idx.append(seed)
         if xi != [2024, 0] or fr[1] != 0 or fr[0] >= len(ref):
-            vals.append(None)
+            vals.append("unmapped")
         else:
             vals.append(ref[fr[0]])
     return idx, vals
@@ -367,6 +387,8 @@ def compare(case, impl, model):
     if impl.get("raise"):
         dis.append(f"implementation raised outside run/results: {impl['raise']} {impl.get('tb', '')[-300:]}")
         return dis
+    if case.get("partial"):
+        return dis      # a failing repetition is outside the model (its `runXD` is total); see predicates
     mout = iter(model["out"])
     for i, (op, a) in enumerate(zip(case["ops"], impl["out"])):
         if op[0] == "editOp":
@@ -390,8 +412,9 @@ def compare(case, impl, model):
             idx, vals = _interp(b["rows"], impl["refs"][str(a.get("prog", 0))])
             if a["index"] != idx:
                 dis.append(f"op {i} results: index impl {a['index']} vs model {idx}")
-            elif a["rows"] != vals:
-                bad = [j for j, (x, y) in enumerate(zip(a["rows"], vals)) if x != y]
+            elif [x for x, y in zip(a["rows"], vals) if y is not None] != [y for y in vals if y is not None] \
+                    or len(a["rows"]) != len(vals):
+                bad = [j for j, (x, y) in enumerate(zip(a["rows"], vals)) if y is not None and x != y]
                 dis.append(f"op {i} results: rows {bad} differ from the single runs the model names")
             if a["columns"] != KEYS[case["dim"]]:
                 dis.append(f"op {i} results: columns {a['columns']}")
@@ -427,6 +450,19 @@ def predicates(case, impl):
     ref = impl["ref"]
     last_how = None
     tables = []
+    if case.get("partial"):
+        # some repetitions cannot complete within t_tot: the study must fail as a whole IN EVERY MODE (what the
+        # sequential loop does) - never a table with fewer rows than repetitions or rows shifted away from their seeds
+        for op, a in zip(case["ops"], impl["out"]):
+            if op[0] == "run" and "raise" not in a:
+                out.append(Failure(
+                    clause="modes_equal", key=f"partial_study|Snowing.run|{op[1]}|no-error",
+                    detail=f"Nrep={nrep}, t_tot={impl['partial']['t_tot']:.2f} s: only repetitions "
+                           f"{impl['partial']['complete']} can complete, yet run(how={op[1]!r}) does not raise"))
+            if op[0] == "results" and "rows" in a and (len(a["rows"]) != nrep or a["index"] != list(range(nrep))):
+                out.append(Failure(clause="rep_is_seeded_run", key="partial_study|Snowing.results|row-count",
+                                   detail=f"results has {len(a['rows'])} rows for Nrep={nrep}"))
+        return out
     for i, (op, a) in enumerate(zip(case["ops"], impl["out"])):
         if op[0] == "setNrep" or op[0] == "editOp":
             if op[0] == "setNrep":
@@ -437,10 +473,18 @@ def predicates(case, impl):
         if op[0] == "run":
             last_how = op[1]
             if "raise" not in a and op[1] == "async" and nrep > 1:
-                okall = all(any(_seeded_ok(g, j) for g in a["worker_tasks"]) for j in range(nrep)) and \
-                    len(a["worker_tasks"]) == nrep
+                from collections import Counter
+
+                def second(g):
+                    st = _streams(g)
+                    ok = len(st) == 2 and st[0][0] == 2024 and all(x[1] >= 1 for x in st) and isinstance(st[1][0], int)
+                    return st[1][0] if ok else None
+
+                got = Counter(second(g) for g in a["worker_tasks"])
+                okall = got == Counter(range(nrep))
                 if not okall:
-                    odd = [g for g in a["worker_tasks"] if not any(_seeded_ok(g, j) for j in range(nrep))][:2]
+                    odd = [g for g in a["worker_tasks"] if second(g) is None or got[second(g)] > 1
+                           or not 0 <= second(g) < nrep][:2]
                     out.append(Failure(clause="rep_is_seeded_run", key="seeding|Snowing.run|async",
                                        detail=f"parallel run of Nrep={nrep}: the tasks do not seed the generator with "
                                               f"2024 and with their repetition number i (an int): {odd}"))
@@ -462,8 +506,9 @@ def predicates(case, impl):
                 clause="rep_is_seeded_run", key=f"rep_is_seeded_run|Snowing.results|{last_how}|raises:{a['raise']}|{cls}",
                 detail=f"Snowing(Nrep={nrep}) after run(how) for how in {hist}: results raises {a['raise']}"))
             continue
-        if a["index"] != list(range(nrep)) or a["rows"] != ref[:nrep]:
-            bad = [j for j in range(min(len(a["rows"]), nrep)) if a["rows"][j] != ref[j]]
+        if a["index"] != list(range(nrep)) or len(a["rows"]) != nrep or \
+                any(r is not None and a["rows"][j] != r for j, r in enumerate(ref[:nrep])):
+            bad = [j for j in range(min(len(a["rows"]), nrep)) if ref[j] is not None and a["rows"][j] != ref[j]]
             out.append(Failure(
                 clause="rep_is_seeded_run" if nrep > 1 else "single_eq_rep0",
                 key=f"rep_is_seeded_run|Snowing.results|{last_how}|differs|{cls}",
@@ -475,14 +520,14 @@ def predicates(case, impl):
             clause = "repeat_same" if h1[-1] == h2[-1] else "modes_equal"
             out.append(Failure(clause=clause, key=f"{clause}|Snowing.results|{h1[-1]}-{h2[-1]}",
                                detail=f"tables after {h1} and after {h2} differ"))
-    for i, ev in enumerate(impl["ref_evs"]):
+    for i, ev in impl["ref_evs"]:
         if not _seeded_ok(ev, i):
             out.append(Failure(clause="rep_is_seeded_run", key="seeding|Snowing._run_xD|",
                                detail=f"_run_xD(seed={i}) uses the global generator as {ev}; expected kinetic draw from "
                                       f"seed 2024 and F_rand as the first draw after np.random.seed({i})"))
             break
     ref = impl["refs"][str(impl.get("used_prog", 0))]
-    if impl["used"] != ref[:len(impl["used"])]:
+    if impl["used"] != [r for r in ref if r is not None][:len(impl["used"])]:
         out.append(Failure(clause="rep_is_seeded_run", key="seeded_run_history_dependent|Snowing._run_xD|",
                            detail="_run_xD(seed=i) on the used object / with another global-generator state differs "
                                   "from the run on a fresh object"))
@@ -492,6 +537,8 @@ def predicates(case, impl):
 def classify(case, impl):
     hows = "+".join((o[1] if o[0] == "run" else "edit" if o[0] == "editOp" else f"Nrep={o[1]}")
                     for o in case["ops"] if o[0] in ("run", "setNrep", "editOp"))
+    if case.get("partial"):
+        hows += " [t_tot between the completion times: study must fail]"
     if case.get("tamper"):
         hows += " [config file rewritten / const adjusted after construction]"
     return [f"dim={case['dim']}" + (f"/{case['cfg']}" if case.get("cfg") else ""), f"nrep={case['nrep']}", f"cpu={case['cpu']}", f"prog={case['prog']}",
@@ -507,6 +554,14 @@ def cases(rng, tier):
     quick = tier == "quick"
     R = ["results"]
     progs = ["B", "C", "D"]
+    # a LARGE study crossing the special seed values (2021 = Snowflake's default seed, 2024 = the kinetic seed):
+    # row i = the single run with seed i for the rows checked, one row per repetition, seeds 0..Nrep-1 each once
+    yield dict(dim="homogeneous", nrep=2030, cpu=16, prog="C", ops=[["run", "async"], R],
+               check_rows=[0, 1, 2021, 2023, 2024, 2025, 2029], gstate=11, gdraws=2)
+    # partially failing studies: t_tot between the completion times of the repetitions
+    for how, k in (("sequential", 3), ("async", 3), ("async", 6), ("sequential", 7)):
+        yield dict(dim="homogeneous", nrep=8, cpu=rng.choice([2, 16]), prog="C", ops=[["run", how], R],
+                   partial={"complete": k}, gstate=rng.randrange(1000), gdraws=2)
     # 2D model, parallel: row i = _run_2D(seed=i) on a fresh object (and = the sequential table in thorough)
     yield dict(dim="spatial_2D", cfg="wide", nrep=2, cpu=2, prog="W", ops=[["run", "async"], R], gstate=6, gdraws=1)
     if not quick:
